@@ -495,6 +495,21 @@ fn c10_gen_string(rng: &mut StdRng) -> String {
         let node: u32 = *[0u32, 255, 256].choose(rng).unwrap();
         s = format!("{secs}-{frac:0>4}-{cnt:0>4X}-{node:0>4}");
     }
+    if rng.gen_bool(0.08) {
+        // a multi-byte character anywhere (also in place of one or two characters)
+        let mut v: Vec<String> = s.chars().map(|c| c.to_string()).collect();
+        let pos = rng.gen_range(0..=v.len());
+        let ch = ["é", "€", "😀", "ß", "١"].choose(rng).unwrap().to_string();
+        if pos < v.len() && rng.gen_bool(0.5) {
+            v[pos] = ch;
+            if pos + 1 < v.len() && rng.gen_bool(0.5) {
+                v.remove(pos + 1);
+            }
+        } else {
+            v.insert(pos, ch);
+        }
+        s = v.concat();
+    }
     s
 }
 
@@ -598,7 +613,73 @@ pub fn c10(args: &Args) {
     report.count("ordered_pairs_compared", pairs);
     report.absorb(out);
     report.evaluations = grid_points + pairs;
-    // parsing never panics
+    // parsing never panics, part one: every character-level mutant of valid text forms (each position x
+    // replace / insert / delete x a list of single- and multi-byte characters), so that a parser working on
+    // byte offsets meets a character boundary problem at every offset there is
+    {
+        let mut out = CaseOut::default();
+        let mut mutants = 0u64;
+        let mut multibyte = 0u64;
+        let mut bases: Vec<String> = Vec::new();
+        for secs in [0u64, 7, 42, 999, 12_345, 1_000_000, 999_999_999, 1_700_000_000, TIMESTAMP_MAX] {
+            for (f, c, n) in [(0u8, 0u16, 0u8), (249, 65_535, 255), (17, 0x0A0B, 9)] {
+                if let Ok(t) = std::panic::catch_unwind(move || HLCTimestamp::new(Duration::from_secs(secs) + Duration::from_millis(f as u64 * 4), c, n).to_string()) {
+                    bases.push(t);
+                }
+            }
+        }
+        bases.push("1-2-3-4".into());
+        bases.push("0-0-0-0".into());
+        bases.push("".into());
+        let repl = ["é", "€", "😀", "١", "\u{0}", " ", "-", "Z", "9", "\u{7f}", "ß"];
+        for base in &bases {
+            let chars: Vec<char> = base.chars().collect();
+            for pos in 0..=chars.len() {
+                for r in repl {
+                    for op in 0..3 {
+                        let mut v: Vec<String> = chars.iter().map(|c| c.to_string()).collect();
+                        match op {
+                            0 if pos < chars.len() => v[pos] = r.to_string(),
+                            1 => v.insert(pos, r.to_string()),
+                            2 if pos < chars.len() => {
+                                // a two-character window replaced by one multi-byte character
+                                v[pos] = r.to_string();
+                                if pos + 1 < chars.len() {
+                                    v.remove(pos + 1);
+                                }
+                            },
+                            _ => continue,
+                        }
+                        let s: String = v.concat();
+                        mutants += 1;
+                        if r.len() > 1 {
+                            multibyte += 1;
+                        }
+                        let s2 = s.clone();
+                        match std::panic::catch_unwind(move || HLCTimestamp::from_str(&s2)) {
+                            Ok(Ok(t)) => {
+                                let again = t.to_string();
+                                if HLCTimestamp::from_str(&again).ok() != Some(t) {
+                                    out.violate("C10:parsed-stamp-does-not-roundtrip", json!({"text": s, "printed": again}));
+                                }
+                            },
+                            Ok(Err(_)) => {},
+                            Err(_) => {
+                                let class = if s.is_ascii() { "ascii-mutant-of-valid-text" } else { "non-ascii-text" };
+                                out.violate(format!("C10:from_str-panicked:{class}"), json!({"text": s}));
+                                out.replay = Some(json!({"text": s}));
+                            },
+                        }
+                    }
+                }
+            }
+        }
+        out.count("text_mutants_parsed", mutants);
+        out.count("text_mutants_with_multibyte_character", multibyte);
+        report.absorb(out);
+        report.evaluations += mutants;
+    }
+    // parsing never panics, part two: generated strings
     let seed = args.seed;
     let n = args.pick(2_000_000, 40_000_000);
     let chunk = 20_000u64;
